@@ -697,6 +697,7 @@ impl LpgStore {
             drop(nodes); // Release lock before removing properties
             drop(index);
             drop(node_labels);
+            self.remove_from_property_indexes(id);
             self.node_properties.remove_all(id);
 
             // Note: Caller should use delete_node_edges() first if detach is needed
@@ -744,6 +745,7 @@ impl LpgStore {
             drop(versions);
             drop(label_index);
             drop(node_labels);
+            self.remove_from_property_indexes(id);
             self.node_properties.remove_all(id);
 
             true
@@ -1344,6 +1346,15 @@ impl LpgStore {
                 .entry(new_hv)
                 .or_insert_with(FxHashSet::default)
                 .insert(node_id);
+        }
+    }
+
+    /// Removes a node from every property index (called when the node is deleted,
+    /// before its properties are dropped).
+    fn remove_from_property_indexes(&self, node_id: NodeId) {
+        let keys: Vec<PropertyKey> = self.property_indexes.read().keys().cloned().collect();
+        for key in keys {
+            self.update_property_index_on_remove(node_id, &key);
         }
     }
 
